@@ -142,6 +142,70 @@ func extraMapValues(t *ga.Type, r *hx.Rand) []*ga.Val {
 	return out
 }
 
+// flip builds the prior destination that differs from the source v everywhere: non-nil pointers where
+// the source has nil and vice versa, a one-element slice with spare capacity where the source has a
+// nil slice, a slice that is one shorter with two spare elements where it has a non-empty one (so
+// that growing reuses the spare capacity), a populated map for a nil or non-nil map, other leaves.
+func flip(g *ga.Gen, t *ga.Type, env map[int]*ga.Type, v *ga.Val) *ga.Val {
+	last := func(t *ga.Type) *ga.Val {
+		p := g.Pool(t, env, 1)
+		return p[len(p)-1].Clone(g.Fresh)
+	}
+	switch t.K {
+	case ga.KNamed:
+		env2 := map[int]*ga.Type{}
+		for k, x := range env {
+			env2[k] = x
+		}
+		env2[t.ID] = t
+		return flip(g, t.Elem, env2, v)
+	case ga.KRef:
+		return flip(g, env[t.ID].Elem, env, v)
+	case ga.KBasic:
+		p := g.Pool(t, env, 1)
+		if p[0].Sexp() != v.Sexp() {
+			return p[0]
+		}
+		return p[1]
+	case ga.KPtr:
+		if v.K == "nilp" {
+			return &ga.Val{K: "p", Loc: g.Fresh(), Elems: []*ga.Val{last(t.Elem)}}
+		}
+		return &ga.Val{K: "nilp"}
+	case ga.KSlice:
+		out := &ga.Val{K: "sl", Loc: g.Fresh()}
+		switch {
+		case v.K == "nils":
+			out.Elems = []*ga.Val{last(t.Elem)}
+			out.Spare = []*ga.Val{last(t.Elem)}
+		case len(v.Elems) == 0:
+			out.Elems = []*ga.Val{last(t.Elem), last(t.Elem)}
+		default:
+			for _, e := range v.Elems[:len(v.Elems)-1] {
+				out.Elems = append(out.Elems, flip(g, t.Elem, env, e))
+			}
+			out.Spare = []*ga.Val{last(t.Elem), last(t.Elem)}
+		}
+		return out
+	case ga.KArray:
+		out := &ga.Val{K: "a"}
+		for _, e := range v.Elems {
+			out.Elems = append(out.Elems, flip(g, t.Elem, env, e))
+		}
+		return out
+	case ga.KMap:
+		kp := g.Pool(t.Key, env, 1)
+		return &ga.Val{K: "m", Loc: g.Fresh(), KVs: [][2]*ga.Val{{kp[len(kp)-1].Clone(g.Fresh), last(t.Elem)}}}
+	case ga.KStruct:
+		out := &ga.Val{K: "st"}
+		for i, f := range t.Fields {
+			out.Elems = append(out.Elems, flip(g, f.T, env, v.Elems[i]))
+		}
+		return out
+	}
+	panic("flip")
+}
+
 // corpus/C05/cases.txt: "<Go spelling of the type>\t<op> <args>" — regression cases (witnesses of
 // the mutations the check was tested against); they run whenever the type is part of the run (all
 // of them are depth <= 1 shapes, which every tier enumerates).
@@ -206,8 +270,13 @@ func Run(cfg hx.Config) (*hx.Meta, error) {
 				}
 				return ds
 			}
+			fg := ga.NewGen(r, 0)
 			for si, s := range vals {
 				fmt.Fprintf(out, "clone %d %s\n", idx, s.Sexp())
+				// the everywhere-different prior destination, in both directions
+				fl := flip(fg, t, map[int]*ga.Type{}, s)
+				fmt.Fprintf(out, "dcp %d %s %s\n", idx, wrapP(fresh(), s).Sexp(), wrapP(fresh(), fl.Clone(fresh)).Sexp())
+				fmt.Fprintf(out, "dcp %d %s %s\n", idx, wrapP(fresh(), fl).Sexp(), wrapP(fresh(), s.Clone(fresh)).Sexp())
 				for _, d := range dsts(si) {
 					// pointer form: arbitrary prior contents of *dst
 					fmt.Fprintf(out, "dcp %d %s %s\n", idx, wrapP(fresh(), s).Sexp(), wrapP(fresh(), d.Clone(fresh)).Sexp())
